@@ -117,7 +117,12 @@ def hostile_templates():
         "<view wx:if=\"{{a}}\" wx:elif=\"{{b}}\" wx:else/>", "<view wx:else/><view wx:elif=\"{{a}}\"/>", "<view wx:unknown=\"1\" unknown:x=\"2\" :=\"3\" =\"4\"/>",
         "{{ 0x" + "f" * 400 + " }}", "{{ 0" + "7" * 400 + " }}", "{{ " + "9" * 400 + " }}", "{{ 1e" + "9" * 50 + " }}", "{{ 0." + "0" * 400 + "1 }}", "{{ 0x }}", "{{ 08 }}", "{{ 1.2.3 }}",
         "{{ 'a" + "\\\\" * 100 + " }}", "{{ '\\u{" + "f" * 20 + "}' }}", "{{ '\\x' }}", "{{ \"" + "\\" * 101 + " }}", "&" * 300, "&#" + "9" * 50 + ";", "&#x" + "f" * 50 + ";", "&#xD800;&#0;&#x110000;",
-        "\U0001F600" * 200, "\0" * 50, "a\rb\r\nc\n\rd", "<view>\ud800</view>".encode("utf-8", "surrogatepass").decode("utf-8", "replace"),
+        "\U0001F600" * 200, "\0" * 50, "a\rb\r\nc\n\rd",
+        # multi-byte and astral characters in every name-like position, at every length (byte offsets computed from the end)
+        *['<import src="%s"/><include src="%s"/><wxs module="m" src="%s"/><template is="%s"/><template name="%s"/>' % ((n,) * 5)
+          for n in ["首", "首页", "ab页面", "日本", "é", "éé.wxm", "中.wxml", "😀", "a😀", "😀.wxs", "x" * 4 + "页", "页" + "x" * 4, "./首页", "../é/中", "\U0010FFFF"]],
+        *['<%s %s="1" data-%s="2" mark:%s="3" bind:%s="h" slot:%s slot="%s" wx:key="%s" generic:%s="c"/>' % ((n,) * 9) for n in ["é", "中", "a中", "中a", "😀", "a-é-b"]],
+        "<wxs module=\"é\">exports.a=1</wxs>{{é.a}}", "{{ 首页 }}{{ a.首页 }}{{ '首页'.length }}{{ {首: 1} }}", "<view wx:for=\"{{l}}\" wx:for-item=\"é\" wx:for-index=\"中\">{{é}}{{中}}</view>", "<view>\ud800</view>".encode("utf-8", "surrogatepass").decode("utf-8", "replace"),
     ]
     return out
 
@@ -130,7 +135,8 @@ def hostile_css():
         "a{b:" + "calc(" * d + "1rpx" + ")" * d + "}", "a{b:" + " + ".join(["1rpx"] * 500) + "}", "a{b:" + "9" * 400 + "rpx}", "a{b:1e999rpx;c:-1e999rpx;d:1e-999rpx}",
         "a{b:0.0000000000000000000000000000000000000000000001rpx}", "\\" * 300, "a{b:'" + "\\" * 301 + "}", "a{b:url(" + "\\" * 301 + ")}", "U+" + "?" * 50,
         "@charset \"" + "x" * 1000, "@" * 300, "#" * 300, "." * 300, ":" * 300, "\0" * 100, "\U0001F600" * 300, "a{--x:" + "{" * d + "}" * d + "}", "@layer " + ",".join("l%d" % i for i in range(500)) + ";",
-        "@font-face{unicode-range:U+0-10FFFF, U+" + "F" * 30 + "}", "@keyframes k{" + "".join("%d%%{a:b}" % i for i in range(101)) + "}", "<!--" * 100 + "-->" * 100,
+        "@font-face{unicode-range:U+0-10FFFF, U+" + "F" * 30 + "}", ".a{margin:1e;width:2.5E 3px}3E{} 1e{} .b{c:1\\65 }", "@import '首页';@import url(日本);@import '😀' layer(é) supports(中:1) 页;",
+        ".é{} .中\\😀{} #é{} é|a{} [é=中]{} :é(中){} @é 中{} .a{é:中; --é:😀}", ".a{width:1é;height:2😀;top:3\\65 😀}", "@keyframes k{" + "".join("%d%%{a:b}" % i for i in range(101)) + "}", "<!--" * 100 + "-->" * 100,
     ]
 
 
